@@ -230,6 +230,17 @@ def scope(rc):
         if not okv or per_var:
             rc.fail(pr, c, "predict must decode the JOINT MAP over all missing variables with one map_query per row; per-variable queries return the marginal modes, "
                     "which need not be a jointly most probable completion", construct="predict per-variable MAP")
+    # ... and the rows queried are the rows that are distinct over ALL observed columns, results merged back on all of them
+    dd = [c for c in ast.walk(pr.node) if isinstance(c, ast.Call) and call_name(c) == "drop_duplicates"]
+    for c in dd:
+        sub = kwarg(c, "subset") or (c.args[0] if c.args else None)
+        rc.ob(f"predict: distinct rows by {norm(c, 60)}")
+        if sub is not None:
+            rc.fail(pr, c, "predict de-duplicates the rows on a SUBSET of the observed columns: every observed column is evidence of the MAP query (a co-parent of a child of the missing "
+                    "variable changes the answer), so rows that differ elsewhere get the answer of another row", construct="predict distinct rows on a subset")
+    for c in [c for c in ast.walk(pr.node) if isinstance(c, ast.Call) and call_name(c) == "merge"]:
+        if kwarg(c, "on") is not None or kwarg(c, "left_on") is not None:
+            rc.fail(pr, c, "predict merges the per-row answers back on a subset of the columns", construct="predict merge on a subset")
     # max_marginal: maximises the joint's table
     mm = repo.func(EI, "VariableElimination.max_marginal")
     cm = calls_named(mm, "_variable_elimination")
@@ -253,6 +264,8 @@ def defuse(rc):
     _sh.defuse_rule(rc, _sh.anchor_files("C03"))
 
 MUTANTS = [
+    dict(kind="break", name="predict-distinct-rows-on-neighbours-only", file="pgmpy/models/BayesianNetwork.py", expect="C03.scope",
+         old="            data_unique = data.drop_duplicates()\n            pred_values = []\n\n            # Send state_names dict", new="            data_unique = data.drop_duplicates(subset=[c for c in data.columns if c in set(self.get_markov_blanket(list(missing_variables)[0]))] or None)\n            pred_values = []\n\n            # Send state_names dict"),
     dict(kind="break", name="predict-per-variable-map", file="pgmpy/models/BayesianNetwork.py", expect="C03.scope",
          old="                delayed(model_inference.map_query)(\n                    variables=missing_variables,", new="                delayed(model_inference.map_query)(\n                    variables=[list(missing_variables)[0]],"),
     dict(kind="break", name="joint-axes-reordered-without-cardinality", file=EI, expect="C03.decode",
